@@ -38,7 +38,7 @@ PROPS = {
  ),
  'C14': dict(
     group='codec', only=['param', 'msg.dec'], ops=['param.new', 'msg.dec'],
-    modules=['Ysshra.Props.C14', 'Ysshra.Props.C15', 'Ysshra.Bridge.SnapParam', 'Ysshra.Bridge.SnapMessage'],
+    modules=['Ysshra.Props.C14', 'Ysshra.Props.C15', 'Ysshra.Bridge.SnapParam', 'Ysshra.Bridge.SnapMessage', 'Ysshra.Bridge.Message'],
     theorem_files=['Props/C14.lean', 'Bridge/SnapParam.lean', 'Bridge/SnapMessage.lean'],
     anchors=['csr/', 'message/', 'sshutils/version', 'common/'],
     n=dict(quick=1500, thorough=60000),
@@ -51,8 +51,8 @@ PROPS = {
  ),
  'C15': dict(
     group='codec', only=['msg'], ops=['msg.enc', 'msg.dec'],
-    modules=['Ysshra.Props.C15', 'Ysshra.Bridge.SnapMessage'],
-    theorem_files=['Props/C15.lean', 'Bridge/SnapMessage.lean'],
+    modules=['Ysshra.Props.C15', 'Ysshra.Bridge.SnapMessage', 'Ysshra.Bridge.Message'],
+    theorem_files=['Props/C15.lean', 'Bridge/SnapMessage.lean', 'Bridge/Message.lean'],
     anchors=['message/'],
     n=dict(quick=2500, thorough=100000),
     trivial=lambda c: False,
